@@ -32,6 +32,10 @@ def _gen(name, corr_is_property, extra_assumptions=()):
                 assumptions=["the model Codec.v transcribes src/codec.rs, src/compact.rs, src/bit_vec.rs and the derive expansion; agreement with the working tree is sampled on every run (registry of ~190 concrete types, seeded boundary-biased values and mutated byte strings); the theorems about the model are unbounded"] + list(extra_assumptions))
 
 PROPS.update({
+    "C10": dict(harness="c10", model_fn=None, corr_is_property=False, harness_timeout=1200,
+        corr_name="Ledger.ledger_check: number of elements constructed / dropped by the real decode vs the ledger model, per (slots, failure position, kind)",
+        trusted_base=["the ledger model abstracts Rust's ownership: a value is dropped when its owner goes out of scope on the error path or during unwinding; Vec, Box, LinkedList, BTreeMap drop their contents when dropped (std, trusted); MaybeUninit never drops its content"],
+        assumptions=["memory safety inside the unsafe blocks (use after free, reads of uninitialised memory) is a runtime behaviour the Gallina model cannot exhibit; the counting allocator checks that live heap bytes return to the baseline (a double free of the system allocator would abort the harness)"]),
     "C13": dict(harness="c13", model_fn="c13_model", corr_is_property=False, harness_timeout=1200,
         corr_name="CorrC13.c13_check: Mel.mel / cel / CodecMore.fixed_size vs MaxEncodedLen::max_encoded_len(), ConstEncodedLen, Decode::encoded_fixed_size() of every registry type",
         trusted_base=["the reported constants are observed from the implementation on every run (tables by observation), the theorems are about the formulas; a type whose reported constant differs from the model's formula is no longer covered by the soundness theorem"] ,
